@@ -477,6 +477,8 @@ pub struct ReplayCase<H> {
 #[derive(Default)]
 pub struct Stats {
     pub histories: u64,
+    /// crash points reached (snapshots taken)
+    pub points: u64,
     pub evaluations: u64,
     pub nontrivial: HashSet<u64>,
     pub classes: BTreeMap<String, u64>,
@@ -490,6 +492,7 @@ impl Stats {
     }
     pub fn merge(&mut self, o: Stats) {
         self.histories += o.histories;
+        self.points += o.points;
         self.evaluations += o.evaluations;
         self.nontrivial.extend(o.nontrivial);
         for (k, v) in o.classes {
@@ -638,6 +641,7 @@ pub fn eval_history<R: Routine>(h: &R::Hist, known: &Known, shrink_target: Optio
     for c in R::hist_classes(h) {
         st.class(format!("hist:{c}"));
     }
+    st.points = recd.snaps.len() as u64;
     if recd.snaps.is_empty() {
         st.class("hist:no-crash-point-reached");
     }
@@ -935,9 +939,17 @@ pub fn run_section<R: Routine>(ck: &mut Check, histories: u64, shards: usize) ->
     }
 
     // 3. book-keeping
+    if total.histories > 0 && total.points == 0 {
+        ck.infra(format!(
+            "section {}: {} histories ran but no crash_point was reached - the verif-hooks call sites are missing from the tree under test (harness/c06/hooks-c06.patch) or the feature is off",
+            R::NAME,
+            total.histories
+        ));
+    }
     let wall = t0.elapsed().as_secs_f64();
     let mut classes: Vec<(String, u64)> = total.classes.into_iter().collect();
     classes.push(("histories".into(), total.histories));
+    classes.push(("crash-points-reached".into(), total.points));
     ck.record_external(R::NAME, total.evaluations, total.nontrivial, classes, total.samples, None);
     for (k, n) in total.known {
         ck.count_known(R::NAME, &k, n);
